@@ -1,8 +1,9 @@
 """C02: see DESIGN.md section 3 C02."""
-from _ccmon import standard_plan, floor_msgs, COMMON_ASSUMPTIONS
+from _ccmon import standard_plan, floor_msgs, COMMON_ASSUMPTIONS, EVOLVE_NOTE
 
 LEVEL = "exploration"
 RULE = 'histories are generated per shard from (seed, index) by harness/src/gen.rs (weights of mode C02: cycle motifs (self loop, k-ring, rings sharing a node, ring + tail, ring pinned through a hidden slot) followed by un-buffering traffic, frequent collect-until-quiet) plus the directed corpus harness/src/directed.rs; each is executed against the real crate with all oracles on, followed by an epilogue that releases everything and collects until quiet. distinct = distinct expanded operation lists (FNV hash); non-trivial iff the collector (not plain reference counting) reclaimed at least 2 objects in the history and the collect-until-quiet set comparison ran'
+RULE += EVOLVE_NOTE
 ASSUMPTIONS = COMMON_ASSUMPTIONS
 FLOORS = {'c02_quiet_checks': 1000, 'objects_reclaimed_by_collector': 2000}
 
